@@ -1,0 +1,129 @@
+// Copyright 2016-2019 DutchSec (https://dutchsec.com/)
+//
+// Licensed under the Apache License, Version 2.0 (the "License");
+// you may not use this file except in compliance with the License.
+// You may obtain a copy of the License at
+//
+// http://www.apache.org/licenses/LICENSE-2.0
+//
+// Unless required by applicable law or agreed to in writing, software
+// distributed under the License is distributed on an "AS IS" BASIS,
+// WITHOUT WARRANTIES OR CONDITIONS OF ANY KIND, either express or implied.
+// See the License for the specific language governing permissions and
+// limitations under the License.
+package ldap
+
+import (
+	"bufio"
+	"bytes"
+	"errors"
+	"io"
+
+	ber "github.com/go-asn1-ber/asn1-ber"
+)
+
+// maxMessageSize is the largest LDAPMessage the service reads.
+const maxMessageSize = 1 << 20
+
+// maxMessageDepth bounds the nesting of elements in a message.
+const maxMessageDepth = 64
+
+var errMessageSize = errors.New("ldap: message length not acceptable")
+var errMessageForm = errors.New("ldap: element length exceeds its container")
+
+// berHeader returns the length of the identifier and length octets at the
+// start of b and the length of the contents they announce. The decoder of
+// the BER library allocates every announced length before reading, so the
+// lengths have to be checked first.
+func berHeader(b []byte) (hdr int, length int, ok bool) {
+	if len(b) < 2 {
+		return 0, 0, false
+	}
+
+	i := 1
+	if b[0]&0x1f == 0x1f {
+		// high tag number form
+		for i < len(b) && b[i]&0x80 != 0 {
+			i++
+		}
+		i++
+	}
+
+	if i >= len(b) {
+		return 0, 0, false
+	}
+
+	l := int(b[i])
+	i++
+
+	if l < 0x80 {
+		return i, l, true
+	}
+
+	k := l & 0x7f
+	if k == 0 || k > 4 || i+k > len(b) {
+		// indefinite, more than the service accepts, or cut short
+		return 0, 0, false
+	}
+
+	l = 0
+	for _, v := range b[i : i+k] {
+		l = l<<8 | int(v)
+	}
+
+	return i + k, l, true
+}
+
+// berFits reports whether b is a sequence of elements none of which, at any
+// depth, announces more contents than its container holds.
+func berFits(b []byte, depth int) bool {
+	if depth > maxMessageDepth {
+		return false
+	}
+
+	for len(b) > 0 {
+		hdr, length, ok := berHeader(b)
+		if !ok || length > len(b)-hdr {
+			return false
+		}
+
+		if b[0]&0x20 != 0 && !berFits(b[hdr:hdr+length], depth+1) {
+			return false
+		}
+
+		b = b[hdr+length:]
+	}
+
+	return true
+}
+
+// readMessage reads one LDAPMessage off r.
+func readMessage(r *bufio.Reader) (*ber.Packet, error) {
+	// identifier octet, first length octet and up to four more
+	head, err := r.Peek(2)
+	if err != nil {
+		return nil, err
+	}
+
+	if head[1] > 0x80 {
+		if head, err = r.Peek(2 + int(head[1]&0x7f)); err != nil {
+			return nil, err
+		}
+	}
+
+	hdr, length, ok := berHeader(head)
+	if !ok || length > maxMessageSize {
+		return nil, errMessageSize
+	}
+
+	msg := make([]byte, hdr+length)
+	if _, err := io.ReadFull(r, msg); err != nil {
+		return nil, err
+	}
+
+	if !berFits(msg, 0) {
+		return nil, errMessageForm
+	}
+
+	return ber.ReadPacket(bytes.NewReader(msg))
+}
